@@ -1403,6 +1403,9 @@ impl<'l> CelCompiler<'l> {
         let bc = member_prime_node.into_unresolved_bytecode().resolve();
         let r = i.run_raw(&bc, true);
 
+        #[cfg(rscel_verif)]
+        crate::verif::emit(crate::verif::Event::ConstFold { folded: r.is_ok() });
+
         match r {
             Ok(v) => CompiledProg::with_const(v),
             Err(_) => CompiledProg::with_bytecode(bc),
